@@ -614,6 +614,9 @@ def resolve_single(func, expr, attrs=False, rounds: int = 5):
     return cur
 
 
+_depth = [0]
+
+
 def list_builder(func, name):
     """Symbolic content of the list ``name`` as built by the top-level statements of ``func``: a list of segments
     ``("item", text)``, ``("if", cond_text, segments)`` and ``("each", elt_text, iter_text)`` (the loop variable is
@@ -628,7 +631,23 @@ def list_builder(func, name):
 
     def seq(e):
         if isinstance(e, (ast.List, ast.Tuple)):
-            return [("item", U(x)) for x in e.elts]
+            out = []
+            for x in e.elts:
+                if isinstance(x, ast.Starred):
+                    v = seq(x.value)
+                    if v is None:
+                        return None
+                    out += v
+                else:
+                    out.append(("item", U(x)))
+            return out
+        if isinstance(e, ast.Name) and e.id != name and _depth[0] < 3:
+            # another local list built earlier in the same function
+            _depth[0] += 1
+            try:
+                return list_builder(func, e.id)
+            finally:
+                _depth[0] -= 1
         if isinstance(e, ast.BinOp) and isinstance(e.op, ast.Add):
             a, b = seq(e.left), seq(e.right)
             return None if a is None or b is None else a + b
